@@ -33,8 +33,8 @@ def main():
         tb = traceback.format_exc()
         repo_src = os.path.join(os.path.realpath(common.REPO), 'src') + os.sep
         if repo_src in tb or (os.path.join(common.REPO, 'src') + os.sep) in tb:
-            os.makedirs(os.path.join(common.VERIF, 'replay'), exist_ok=True)
-            path = os.path.join(common.VERIF, 'replay', '%s-harness-crash.json' % pid)
+            os.makedirs(os.path.join(common.OUT, 'replay'), exist_ok=True)
+            path = os.path.join(common.OUT, 'replay', '%s-harness-crash.json' % pid)
             with open(path, 'w') as f:
                 json.dump(dict(property=pid, kind='no-failing-input-found', signature='correspondence-broken',
                                what='the implementation raised an exception the correspondence harness does not '
